@@ -438,6 +438,8 @@ class Interp:
             return (not t) if isinstance(t, bool) else z3.Not(t)
         if isinstance(v, SArr):
             return self.arr_unop(op, v)
+        if isinstance(v, Opq) and isinstance(op, ast.USub):
+            return Opq(z3.Function('neg!U', U, U)(v.t))        # -x of an opaque (array) value: uninterpreted
         v = self._num(v)
         if isinstance(op, ast.USub):
             return -v
